@@ -535,6 +535,8 @@ def runTop (S : Sem P V) (fuel : Nat) (g : Graph P V) (args : List (Bool × V)) 
 /-- Primitive kinds used by the correspondence harness. -/
 inductive Prim where
   | add | sub | mul | neg | abs | ident | less
+  /-- `Cast → MatMul(x, W) → Cast` with an integer-valued constant weight (exact in f32). -/
+  | matmul
 deriving DecidableEq, Repr, Inhabited
 
 /-- An int32 tensor: shape and row-major data. -/
@@ -561,6 +563,25 @@ def binT (k : Prim) (a b : Tens) : Option Tens :=
     | _, _, [], [y] => some ⟨a.shape, a.data.map (fun x => binFn k x y)⟩
     | _, _, _, _ => none
 
+/-- Row `i` of a row-major matrix with `n` columns. -/
+def rowOf (data : List Int) (n i : Nat) : List Int := (data.drop (i * n)).take n
+
+/-- Column `j` of a row-major matrix with `rows` rows and `m` columns. -/
+def colOf (data : List Int) (rows m j : Nat) : List Int :=
+  (List.range rows).map (fun l => (data.drop (l * m + j)).headD 0)
+
+def dot (a b : List Int) : Int := (List.zipWith (· * ·) a b).foldl (· + ·) 0
+
+/-- `[r, n] × [n, m]` integer matrix product. -/
+def matmulT (a w : Tens) : Option Tens :=
+  match a.shape, w.shape with
+  | [r, n], [n', m] =>
+    if n = n' then
+      some ⟨[r, m], (List.range r).flatMap (fun i =>
+        (List.range m).map (fun j => wrap32 (dot (rowOf a.data n i) (colOf w.data n m j))))⟩
+    else none
+  | _, _ => none
+
 def runPrim : Prim → List Tens → Option Tens
   | .neg, [a] => some ⟨a.shape, a.data.map (fun x => wrap32 (-x))⟩
   | .abs, [a] => some ⟨a.shape, a.data.map (fun x => wrap32 (if x < 0 then -x else x))⟩
@@ -569,6 +590,7 @@ def runPrim : Prim → List Tens → Option Tens
   | .sub, [a, b] => binT .sub a b
   | .mul, [a, b] => binT .mul a b
   | .less, [a, b] => binT .less a b
+  | .matmul, [a, w] => matmulT a w
   | _, _ => none
 
 def stackT : List Tens → Option Tens
@@ -585,7 +607,7 @@ def intSem : Sem Prim Tens where
   ofInt := fun x => ⟨[], [x]⟩
   stack := stackT
   emptyScan := ⟨[0], []⟩
-  inPlaceIdx := fun k => match k with | .less => [] | _ => [0]
+  inPlaceIdx := fun k => match k with | .less => [] | .matmul => [] | _ => [0]
   commutative := fun k => match k with | .add => true | .mul => true | _ => false
   size := fun t => t.data.length
 
